@@ -14,10 +14,7 @@ def loosened4 (m : K) (b0 b1 b2 b3 : Aabb3 K) : Vector (Aabb3 K) 4 :=
   (#v[b0, b1, b2, b3] : Vector (Aabb3 K) 4).map (loosenBox m)
 
 /-- allocation of the placeholder node in the recursive case: pop the free list or push -/
-def allocOpen (q : Q K) (par plane : Nat) : Option (Q K × Nat) :=
-  match q.freeList with
-  | nid :: rest => (writeNode { q with freeList := rest } nid (openNode par plane)).map fun q' => (q', nid)
-  | [] => some ({ q with nodes := q.nodes.push (openNode par plane) }, q.nodes.size)
+def allocOpen (q : Q K) (par plane : Nat) : Option (Q K × Nat) := allocWrite q (openNode par plane)
 
 /-- **Induction principle for `do_recurse_rebalance`** -/
 theorem rebalRec_induct (ws : Array (WsItem K)) (margin : K)
@@ -1228,7 +1225,7 @@ theorem allocOpen_spec (q : Q K) (par plane : Nat) (N0 : Nat) (hn : q.freeList.N
     (h0 : N0 ≤ q.nodes.size) (q0 : Q K) (nid : Nat) (h : allocOpen q par plane = some (q0, nid)) :
     RFrame q q0 ∧ q0.proxies = q.proxies ∧ (∀ m, Al q q0 m ↔ m = nid) ∧ nid < q0.nodes.size ∧
       (∀ m, m ≠ nid → q0.nodes[m]? = q.nodes[m]?) ∧ q0.nodes[nid]? = some (openNode par plane) := by
-  unfold allocOpen at h
+  unfold allocOpen allocWrite at h
   cases hf : q.freeList with
   | nil =>
     simp only [hf, Option.some.injEq, Prod.mk.injEq] at h
